@@ -9,6 +9,8 @@ def run(res, a):
     # mode exit with reclaim-on-free: several threads race to adopt the same abandoned segment on their first free into it
     conc.run_conc(res, "C02", a.seed, a.tier, envs=[None, {"VERIF_RECLAIM_ON_FREE": "1"}, {"VERIF_NO_ARENA": "1", "VERIF_RECLAIM_ON_FREE": "1"}], nseeds_quick=24)
     conc.run_lockstep(res, "C02", a.seed, a.tier)
+    # the adoption of an abandoned segment by a cross-thread free (reclaim-on-free) is part of the free protocol: lockstep with Model/Abandon.v
+    conc.run_abandon_lockstep(res, "C02", a.seed, a.tier, envs=[{"VERIF_RECLAIM_ON_FREE": "1"}, {"VERIF_NO_ARENA": "1", "VERIF_RECLAIM_ON_FREE": "1"}])
     try:
         import tfree_sim
         st = tfree_sim.run_sim(a.seed, 400 if a.tier == "thorough" else 60)
